@@ -115,3 +115,48 @@ def _donor(g: L.G, p: Any, ind: str) -> dict:
     if p.name == 'raw_values' and d['t'][:1] in '+-':
         d = D.make('ESCAPED_STRING', g)
     return d
+
+
+def slot_sweep(per_key: int = 3, n_docs: int = 500) -> Iterator[dict]:
+    """Every optional / required / value-level property of every class, in each presence state of its slot (absent / present),
+    `per_key` instances each, with every operation shape (set to None, set to a donor / value). Documents come from a
+    fixed-seed Random and are rich in the rarely drawn constructs (costs with compound amounts, partial prices, tolerances)."""
+    import collections
+    from vf.props import common
+    rnd = random.Random(4242)
+    cfg = L.Cfg(max_dirs=5, exotic=0.03, hazard_text=0.03, comments=0.2, crlf=0.05)
+    S.build()
+    count: collections.Counter = collections.Counter()
+    kinds_cycle = ['transaction', 'transaction', 'balance', 'open', 'note', 'custom', 'price', 'transaction', 'document', 'close', 'pad', 'event',
+                   'query', 'commodity', 'option', 'plugin', 'pushmeta', 'include', 'pushtag', 'poptag', 'popmeta', 'ignored']
+    wanted = {'opt', 'copt', 'uopt', 'req', 'rval', 'oval'}
+    for d in range(n_docs):
+        g = L.G(rnd, cfg)
+        groups = []
+        for j in range(3):
+            groups.append(g.directive(kinds_cycle[(d * 3 + j) % len(kinds_cycle)])['lines'])
+            if g.p(0.3):
+                groups.append([[]])
+        chunks = L.merge_comments([c for c in (g.join_lines(x) for x in groups) if c])
+        try:
+            root = common.parse_file(L.text_of(chunks))
+        except Exception:  # noqa: BLE001
+            continue
+        for m, p, cname, mi in OPS.candidates(root, wanted):
+            try:
+                rn = OPS.raw_name(p) if p.kind in ('rval', 'oval') else p.name
+                present = getattr(m, rn or p.name) is not None
+            except Exception:  # noqa: BLE001
+                continue
+            key = (cname, p.name, present)
+            if count[key] >= per_key:
+                continue
+            count[key] += 1
+            shapes = ['none', 'donor'] if p.kind in ('opt', 'copt', 'uopt') else ['value'] if p.kind in ('req', 'rval') else ['none', 'value']
+            for shape in shapes:
+                try:
+                    op = OPS.gen_for(g, root, m, p, cname, mi, shape=shape)
+                except Exception:  # noqa: BLE001
+                    op = None
+                if op is not None:
+                    yield {'dirs': chunks, 'ops': [op], 'sweep': True}
